@@ -2047,7 +2047,11 @@ class Kconfig(object):
 
         if normalize_unset:
             unset_match = re.compile(r"# {}([^ ]+) is not set".format(self.config_prefix)).match
-            lines = contents.splitlines()
+            # Only "\n" ends a line of the generated text: str.splitlines() would also break string values at
+            # form feeds, U+2028 and the like, and the value would not survive the round trip.
+            lines = contents.split("\n")
+            if lines and lines[-1] == "":
+                lines.pop()
             for idx, line in enumerate(lines):
                 match = unset_match(line)
                 if match:
